@@ -1,22 +1,113 @@
-/* C05 templated documents (first experiment): concrete skeleton, holes restricted to one lexical class. */
+/* C05: JSON::parse on TEMPLATED documents: a concrete skeleton followed by symbolic holes, each hole restricted to one
+ * lexical class (WS = SP HT CR LF, D = '0'..'9', D1 = '1'..'9', H = hex digit, L = 'a'..'z'). The parser mode is a concrete
+ * cell (STRICT 0/1) and the holes are the LAST bytes of the document: measured (NOTES.md), a symbolic mode flag or a symbolic
+ * byte in front of concrete bytes makes CBMC explore the whole parser again at a symbolic offset (no verdict in 900-1500 s,
+ * > 28 GB), while trailing holes cost 10-60 s. Every query still decides its assertion for all values of the holes at once.
+ * Expected results are written from RFC 8259 / the extension list in JSON.hh; float values are computed here with the
+ * same elementary double operations (x0.1 / x10 per exponent step, digit*0.1^k per fraction digit), as no correctly rounded
+ * result is promised by phosg.   Return codes: kind 0 null 1 bool 2 int 3 float 4 string 5 list 6 dict, -20 parse_error,
+ * -21 type_error, -1 out_of_range. */
 #include "harness.h"
 #include "json_cuts.h"
 int64_t w_json_parse(uint8_t* in, uint64_t n, uint32_t strict, uint64_t* val, uint8_t* sout, uint64_t cap);
-static uint8_t hole_ws(void) { uint8_t c = in_u8(); ASSUME(c == ' ' || c == '\t' || c == '\r' || c == '\n'); return c; }
+int64_t w_json_parse_reader(uint8_t* in, uint64_t n, uint32_t strict, uint64_t* val, uint8_t* sout, uint64_t cap, uint64_t* where);
+
+static uint8_t ws(void) { uint8_t c = in_u8(); ASSUME(c == ' ' || c == '\t' || c == '\r' || c == '\n'); return c; }
+static uint8_t dig(void) { uint8_t c = in_u8(); ASSUME(c >= '0' && c <= '9'); return c; }
+static uint8_t dig1(void) { uint8_t c = in_u8(); ASSUME(c >= '1' && c <= '9'); return c; }
+static uint8_t hexd(void) { uint8_t c = in_u8(); ASSUME((c >= '0' && c <= '9') || (c >= 'a' && c <= 'f') || (c >= 'A' && c <= 'F')); return c; }
+static uint8_t let(void) { uint8_t c = in_u8(); ASSUME(c >= 'a' && c <= 'z'); return c; }
+static unsigned hv(uint8_t c) { return c <= '9' ? c - '0' : (c | 0x20) - 'a' + 10; }
+static double dbl(uint64_t bits) { double d; memcpy(&d, &bits, 8); return d; }
+
+#define DOC(lit) do { const char* s_ = lit; for (n = 0; s_[n]; n++) in[n] = (uint8_t)s_[n]; } while (0)
+#define REJECTED(r) ((r) == -20 || (r) == -1)
+#define ONLY_DOCUMENTED(r) ((r) >= 0 || (r) == -20 || (r) == -1)
+
 void harness(void) {
-  uint32_t strict = in_bool();
-  uint64_t val = 99;
-#if TPL == 0
-  uint8_t in[3] = {'[', ']', 0}; enum { N = 2 };
-#elif TPL == 1
-  uint8_t in[4] = {'[', 0, ']', 0}; enum { N = 3 }; in[1] = hole_ws();
-#elif TPL == 2
-  uint8_t in[4] = {'{', 0, '}', 0}; enum { N = 3 }; in[1] = hole_ws();
-#elif TPL == 3
-  uint8_t in[3] = {'{', '}', 0}; enum { N = 2 };
+  uint8_t in[16], sout[16];
+  unsigned n = 0;
+  uint64_t val = 99, where = 99;
+  int64_t r;
+#if TPL == 1 || TPL == 2          /* "[]" WS, "{}" WS : empty containers are standard JSON */
+  DOC(TPL == 1 ? "[]" : "{}"); in[n++] = ws();
+  r = w_json_parse(in, n, STRICT, &val, sout, 16); OBS(r);
+  ASSERT(r == (TPL == 1 ? 5 : 6) && val == 0, "an empty list / dictionary is accepted in this mode with size 0");
+#elif TPL == 3 || TPL == 4        /* "[ ]" WS, "{ }" WS */
+  DOC(TPL == 3 ? "[ ]" : "{ }"); in[n++] = ws();
+  r = w_json_parse(in, n, STRICT, &val, sout, 16); OBS(r);
+  ASSERT(r == (TPL == 3 ? 5 : 6) && val == 0, "an empty list / dictionary with inner whitespace is accepted in this mode");
+#elif TPL == 5 || TPL == 6        /* "[7,8]" WS, "{\"k\":7}" WS : standard, both modes */
+  DOC(TPL == 5 ? "[7,8]" : "{\"k\":7}"); in[n++] = ws();
+  r = w_json_parse(in, n, STRICT, &val, sout, 16); OBS(r);
+  ASSERT(r == (TPL == 5 ? 5 : 6) && val == (TPL == 5 ? 2 : 1), "a standard container document is accepted in this mode with the right size");
+#elif TPL == 7 || TPL == 8        /* trailing comma "[7,]" WS, "{\"k\":7,}" WS : extension */
+  DOC(TPL == 7 ? "[7,]" : "{\"k\":7,}"); in[n++] = ws();
+  r = w_json_parse(in, n, STRICT, &val, sout, 16); OBS(r);
+  if (STRICT) ASSERT(REJECTED(r), "strict mode rejects a trailing comma");
+  else ASSERT(r == (TPL == 7 ? 5 : 6) && val == 1, "default mode accepts a trailing comma; the container has one member");
+#elif TPL == 9                    /* "0x" H H : hexadecimal integers are an extension */
+  DOC("0x"); uint8_t a = hexd(), b = hexd(); in[n++] = a; in[n++] = b;
+  r = w_json_parse(in, n, STRICT, &val, sout, 16); OBS(r);
+  if (STRICT) ASSERT(REJECTED(r), "strict mode rejects hexadecimal integers");
+  else ASSERT(r == 2 && val == hv(a) * 16 + hv(b), "default mode reads 0xHH as the integer 16*H+H");
+#elif TPL == 10                   /* "-" D1 D D : standard negative integer, both modes */
+  DOC("-"); uint8_t a = dig1(), b = dig(), c = dig(); in[n++] = a; in[n++] = b; in[n++] = c;
+  r = w_json_parse(in, n, STRICT, &val, sout, 16); OBS(r);
+  ASSERT(r == 2 && (int64_t)val == -(int64_t)((a - '0') * 100 + (b - '0') * 10 + (c - '0')), "a standard integer numeral is an int with its decimal value");
+#elif TPL == 11 || TPL == 12      /* "5e-" D and "5E-" D : exponent form, standard, both modes */
+  DOC(TPL == 11 ? "5e-" : "5E-"); uint8_t d = dig(); in[n++] = d;
+  r = w_json_parse(in, n, STRICT, &val, sout, 16); OBS(r);
+  double ref = 5.0; for (int i = 0; i < d - '0'; i++) ref *= 0.1;
+  ASSERT(r == 2 || r == 3, "a standard numeral with exponent is accepted as a number");
+  ASSERT(r != 2 || (double)(int64_t)val == ref, "exponent numeral: an int result has the value of the numeral (5e-1 is not 0)");
+  ASSERT(r != 3 || dbl(val) == ref, "exponent numeral: a float result has the value 5 * 0.1^D");
+  ASSERT(r == 3, "a numeral with an exponent is a float");
+#elif TPL == 13 || TPL == 14      /* "1e" D, "1e+" D */
+  DOC(TPL == 13 ? "1e" : "1e+"); uint8_t d = dig(); in[n++] = d;
+  r = w_json_parse(in, n, STRICT, &val, sout, 16); OBS(r);
+  double ref = 1.0; for (int i = 0; i < d - '0'; i++) ref *= 10;
+  ASSERT(r == 2 || r == 3, "a standard numeral with exponent is accepted as a number");
+  ASSERT(r != 2 || (double)(int64_t)val == ref, "exponent numeral: an int result has the value of the numeral");
+  ASSERT(r != 3 || dbl(val) == ref, "exponent numeral: a float result has the value 10^D");
+  ASSERT(r == 3, "a numeral with an exponent is a float");
+#elif TPL == 15                   /* "2." D D : fraction */
+  DOC("2."); uint8_t a = dig(), b = dig(); in[n++] = a; in[n++] = b;
+  r = w_json_parse(in, n, STRICT, &val, sout, 16); OBS(r);
+  double p = 0.1, ref = 2.0; ref += (a - '0') * p; p *= 0.1; ref += (b - '0') * p;
+  ASSERT(r == 3 && dbl(val) == ref, "a numeral with a fraction is a float with value 2 + D/10 + D/100");
+#elif TPL == 16                   /* "{1:2}" WS : a non-string key is malformed JSON */
+  DOC("{1:2}"); in[n++] = ws();
+  r = w_json_parse(in, n, STRICT, &val, sout, 16); OBS(r);
+  ASSERT(ONLY_DOCUMENTED(r), "only parse_error / out_of_range escape");
+  ASSERT(REJECTED(r), "a dictionary with a non-string key is rejected");
+#elif TPL >= 17 && TPL <= 19      /* "null" WS, "true" WS, "false" WS : standard */
+  DOC(TPL == 17 ? "null" : TPL == 18 ? "true" : "false"); in[n++] = ws();
+  r = w_json_parse(in, n, STRICT, &val, sout, 16); OBS(r);
+  ASSERT(r == (TPL == 17 ? 0 : 1) && val == (TPL == 18), "null / true / false are accepted in this mode with their value");
+#elif TPL >= 20 && TPL <= 22      /* "n" WS, "t" WS, "f" WS : extension */
+  DOC(TPL == 20 ? "n" : TPL == 21 ? "t" : "f"); in[n++] = ws();
+  r = w_json_parse(in, n, STRICT, &val, sout, 16); OBS(r);
+  if (STRICT) ASSERT(REJECTED(r), "strict mode rejects one-character constants");
+  else ASSERT(r == (TPL == 20 ? 0 : 1) && val == (TPL == 21), "default mode reads n / t / f as null / true / false");
+#elif TPL == 23                   /* "//c\n7" WS : comment extension */
+  DOC("//c\n7"); in[n++] = ws();
+  r = w_json_parse(in, n, STRICT, &val, sout, 16); OBS(r);
+  if (STRICT) ASSERT(REJECTED(r), "strict mode rejects comments");
+  else ASSERT(r == 2 && val == 7, "default mode skips a // comment");
+#elif TPL == 24                   /* "7 " L : trailing garbage, both entry points */
+  DOC("7 "); in[n++] = let();
+  r = w_json_parse(in, n, STRICT, &val, sout, 16); OBS(r);
+  ASSERT(r == -20, "the string entry point rejects trailing non-whitespace with parse_error");
+  r = w_json_parse_reader(in, n, STRICT, &val, sout, 16, &where); OBS(r);
+  ASSERT(r == 2 && val == 7 && where == 1, "the reader entry point returns the value and stops right after it");
+#elif TPL == 25                   /* "\"a" L "\"" : string with a plain letter (hole followed by the closing quote) */
+  DOC("\"a"); uint8_t c = let(); in[n++] = c; in[n++] = '"';
+  r = w_json_parse(in, n, STRICT, &val, sout, 16); OBS(r);
+  ASSERT(r == 4 && val == 2 && sout[0] == 'a' && sout[1] == c, "a plain string is accepted with its bytes");
+#elif TPL == 26 || TPL == 27      /* truncations "[7," D and "{\"k\":" D : only the documented exceptions */
+  DOC(TPL == 26 ? "[7," : "{\"k\":"); in[n++] = dig();
+  r = w_json_parse(in, n, STRICT, &val, sout, 16); OBS(r);
+  ASSERT(REJECTED(r), "a truncated container is rejected with parse_error or out_of_range");
 #endif
-  uint8_t sout[N + 1];
-  int64_t r = w_json_parse(in, N, strict, &val, sout, N + 1);
-  OBS(r); OBS(val);
-  ASSERT(r == ((TPL == 2 || TPL == 3) ? 6 : 5) && val == 0, "an empty container (with optional whitespace) is accepted in both modes with size 0");
 }
